@@ -112,6 +112,7 @@ pub fn spec1_json<T: Flt>(spec: &Spec1<T>) -> J {
         .set("data_layout", spec.data_lay.class())
         .set("x_layout", spec.x_lay.class())
         .set("storage", crate::dynapi::effective_sto1(spec).name())
+        .set("constructor", if spec.ctor_unchecked && spec.x.is_some() { "new_unchecked (Linear)" } else { "builder" })
 }
 
 pub fn spec2_json<T: Flt>(spec: &Spec2<T>) -> J {
@@ -127,4 +128,5 @@ pub fn spec2_json<T: Flt>(spec: &Spec2<T>) -> J {
         .set("strategy_name", spec.strat.name())
         .set("data_layout", spec.data_lay.class())
         .set("storage", crate::dynapi::effective_sto2(spec).name())
+        .set("constructor", if spec.ctor_unchecked && spec.x.is_some() && spec.y.is_some() { "new_unchecked (Bilinear)" } else { "builder" })
 }
